@@ -224,6 +224,19 @@ def run(ctx):
                   "previous-tick test compares the recorded tick with the current tick",
                   "has_prev_tick_data is not derived from the recorded tick")
     ctx.floor("async_returns", 2, "return ASYNC_PAUSED sites in kill plugins")
+    # a plugin that yields must not arm the ruleset's pause on the way: the pause gate is evaluated before the resume
+    # branch, so an armed pause keeps the suspended chain from being resumed on the next tick
+    for f in [krun] + list(ctx.fns("Oomd::KillPgScan::run")):
+        pa = f.calls("Ruleset::pause_actions")
+        fp_ = Flow(P, f, events={i: [("set", "pause-armed")] for i in pa}, cg=ctx.cg)
+        for r in returns(f):
+            c = ret_const(f, r)
+            if c == "ASYNC_PAUSED" or (c is None and "ASYNC_PAUSED" in ret_text(f, r)):
+                ctx.check(not fp_.may(r, "pause-armed"), "yield-does-not-arm-pause:" + short(f), "must_not_precede", f.loc(r),
+                          "no path to 'return ASYNC_PAUSED' calls pause_actions()",
+                          "a path calls Ruleset::pause_actions() and then returns ASYNC_PAUSED: the ruleset's pause gate (checked before the resume branch) "
+                          "blocks the suspended chain for post_action_delay seconds instead of resuming it on the next tick",
+                          witness_path(f, fp_, r))
     # no other plugin in the library returns ASYNC_PAUSED
     allowed = ("Oomd::BaseKillPlugin::run", "Oomd::KillPgScan::run")
     for f in P.fns.values():
